@@ -162,12 +162,12 @@ POOL = [
 ]
 
 
-def model_check_and_replay(max_sources: int, pool=POOL, timeout=3000):
+def model_check_and_replay(max_sources: int, pool=POOL, timeout=3000, max_changes: int = 1):
     """MC_Stream: every sequence <= max_sources over the pool x 8 option sets; invariants on the spec; replay on the real stream."""
     with Scratch("mcstream") as sc:
         write_dialects(sc)
         sc.write_json("pool.json", [dict(uri=cp(u), data=cp(d)) for u, d in pool])
-        cfg = open(sc.path("MC_Stream.cfg")).read().replace("MaxSources = 2", f"MaxSources = {max_sources}")
+        cfg = open(sc.path("MC_Stream.cfg")).read().replace("MaxSources = 2", f"MaxSources = {max_sources}").replace("MaxChanges = 1", f"MaxChanges = {max_changes}")
         sc.write("MC_Stream_run.cfg", cfg)
         res = run_tlc(sc, "MC_Stream", cfg="MC_Stream_run.cfg", timeout=timeout, extra=["-continue"])
     if "Parsing or semantic analysis failed" in res.out or not res.finished or any("Invariant" not in e and "violated" not in e and "ropert" not in e for e in res.errors):
